@@ -281,6 +281,9 @@ func (g *checker) judge(k *kase, code []byte, sigKind string) *verdict {
 		if k.Op != "" {
 			sig += ":" + k.Op
 		}
+	case k.Fam == "returndata":
+		// the return buffer is set by the preceding call: key on how that call was arranged
+		sig = "C10:returndata:" + k.Class
 	default:
 		sig = "C10:opcode:" + k.Op
 		if k.Class != "" {
@@ -600,7 +603,7 @@ func (g *checker) famMemory() {
 					a, b, c3 := a, b, c3
 					g.next(func() *spec {
 						p := rdPrologue(withSentinel(), st).Push(c3).Push(b).Push(a).Op(vm.RETURNDATACOPY)
-						return &spec{fam: "returndata", op: "RETURNDATACOPY", class: st.name + "-huge",
+						return &spec{fam: "returndata", op: "RETURNDATACOPY", class: st.name,
 							desc: fmt.Sprintf("RETURNDATACOPY(%s, %s, %s) after %s", short(a), short(b), short(c3), st.name), body: p.Bytes()}
 					})
 				}
